@@ -298,10 +298,12 @@ class Interp:
     def _kwargs(self, node: dict, with_bad: bool) -> dict:
         kw = dict(node.get("kw", {}))
         if with_bad:
+            # the value given to the unknown name: anything, including None and values equal to "nothing"
+            bad_value = [1, None, False, "", 0, 1][core.H(self.rs, "badvalue", node.get("id")) % 6]
             if node.get("bad_first"):
-                kw = {node["bad"]: 1, **kw}
+                kw = {node["bad"]: bad_value, **kw}
             else:
-                kw = {**kw, node["bad"]: 1}
+                kw = {**kw, node["bad"]: bad_value}
         return kw
 
     def run_node(self, node: dict) -> Optional[str]:
